@@ -89,7 +89,7 @@ func verifWalk(n node, out *[]byte) {
 	}
 }
 
-func verifCheckAgainst(root node, m *verifModel, label string) {
+func verifCheckAgainst(root node, m *verifModel, label string, probe byte) {
 	// in-order content = the model's key set, strictly ascending
 	var keys []byte
 	verifWalk(root, &keys)
@@ -97,8 +97,7 @@ func verifCheckAgainst(root node, m *verifModel, label string) {
 	for i := 1; i < len(keys); i++ {
 		verifrt.Assert(keys[i-1] < keys[i], label+": keys strictly ascending")
 	}
-	// point lookup of an arbitrary key
-	probe := verifrt.Byte("probe")
+	// point lookup of an arbitrary key (the same probe for every tree of the run)
 	v, ts, hc, err := root.get([]byte{probe})
 	i := m.find(probe)
 	if i < 0 {
@@ -123,12 +122,29 @@ func VerifH_TreeIsVersionedMap() {
 	bulks, per := sh[0], sh[1]
 	t := verifNewTree(verifrt.Param("nodeSize"))
 	m := &verifModel{}
+	// concrete preload (keys 10, 20, ...: one bulk each) so that the symbolic bulks start from a
+	// tree that already went through splits; costs no paths
+	for i := 0; i < verifrt.Param("preload"); i++ {
+		k := byte(10 * (i + 1))
+		verifrt.Assume(t.bulkInsert([]*KVT{{K: []byte{k}, V: []byte{1}}}) == nil)
+		m.put(k, 1, m.ts+1)
+	}
+	// freeze: 0 = no snapshot is ever taken (nodes stay mutable and are updated in place);
+	// 1 = one snapshot before the symbolic bulks; 2 = a snapshot before every bulk
+	freeze := verifrt.Param("freeze")
+	// first pin: the tree before any symbolic bulk (a snapshot taken long ago)
+	pinned0, pinnedModel0 := t.root, m.clone()
+	if freeze >= 1 {
+		verifFreeze(pinned0)
+	}
 	var pinned node
 	var pinnedModel *verifModel
 	for b := 0; b < bulks; b++ {
 		// pin the current root as a flushed/snapshotted (immutable) tree would be
 		pinned, pinnedModel = t.root, m.clone()
-		verifFreeze(pinned)
+		if freeze == 2 {
+			verifFreeze(pinned)
+		}
 		kvts := make([]*KVT, per)
 		next := m.clone()
 		explicit := verifrt.Bool("explicitTs")
@@ -159,7 +175,7 @@ func VerifH_TreeIsVersionedMap() {
 		err := t.bulkInsert(kvts)
 		if stale {
 			verifrt.Assert(err != nil, "stale timestamp rejected")
-			verifCheckAgainst(t.root, m, "after rejected bulk")
+			verifCheckAgainst(t.root, m, "after rejected bulk", verifrt.Byte("probe"))
 			verifrt.Reach("rejected")
 			return
 		}
@@ -170,10 +186,16 @@ func VerifH_TreeIsVersionedMap() {
 		}
 		m = next
 	}
-	verifCheckAgainst(t.root, m, "after inserts")
+	probe := verifrt.Byte("probe")
+	verifCheckAgainst(t.root, m, "after inserts", probe)
 	verifrt.Reach("inserted")
-	// copy-on-write: the pinned root is unchanged by the last bulk
-	verifCheckAgainst(pinned, pinnedModel, "pinned root")
+	// copy-on-write: the pinned roots are unchanged by the later bulks
+	if freeze == 2 {
+		verifCheckAgainst(pinned, pinnedModel, "pinned root", probe)
+	}
+	if freeze >= 1 {
+		verifCheckAgainst(pinned0, pinnedModel0, "root pinned before the symbolic bulks", probe)
+	}
 }
 
 // verifFreeze marks a subtree immutable (what a flush or snapshot does to the nodes it keeps).
